@@ -48,7 +48,7 @@ def jobs_for(prop, tier):
         # "not heard from within T": every frame of an aircraft stamps its record with a clock reading taken while the
         # frame is handled (a re-appearing aircraft is a frame for an untracked address: fresh record, same stamp rule)
         for k in ([1] if tier == 'quick' else [0, 1, 2]):
-            jobs += [j for j in frame_jobs(['C15'], k, tier) if j['frames'][0].startswith(('ADSB/', 'TisB/'))]
+            jobs += frame_jobs(['C15'], k, tier)
     return jobs
 
 
